@@ -28,13 +28,14 @@ non-dataclass annotation) or a scalar / non-empty string (under any annotation).
 mutual
 def wt (S : Schema) : Ann → Tree → Prop
   | a, .obj c ks vs =>
-    match classOf S a with
-    | some (c', k) => c' = c ∧ ks = k.fields.map (·.name) ∧ (k.fields.map (·.name)).Nodup ∧
-        wtL S (k.fields.map (·.ann)) vs
-    | none => False
-  | a, .list xs => classOf S a = none ∧ plainL xs = true
-  | a, .dict _ vs => classOf S a = none ∧ plainL vs = true
-  | a, .str [] => classOf S a = none
+    ∃ pre k post, candidates S a = pre ++ (c, k) :: post ∧
+      -- every member tried BEFORE the object's own class lacks one of the object's field names, so it rejects the dict
+      (∀ p ∈ pre, ∃ name ∈ k.fields.map (·.name), p.2.field? name = none) ∧
+      ks = k.fields.map (·.name) ∧ (k.fields.map (·.name)).Nodup ∧
+      wtL S (k.fields.map (·.ann)) vs
+  | a, .list xs => candidates S a = [] ∧ plainL xs = true
+  | a, .dict _ vs => candidates S a = [] ∧ plainL vs = true
+  | a, .str [] => candidates S a = []
   | _, _ => True
 def wtL (S : Schema) : List Ann → List Tree → Prop
   | a :: as, v :: vs => wt S a v ∧ wtL S as vs
@@ -66,12 +67,33 @@ theorem dictifyL_of_plainL : ∀ vs : List Tree, plainL vs = true → dictifyL v
     simp only [dictifyL, dictify_of_plain v h.1, dictifyL_of_plainL vs h.2]
 end
 
-theorem datify_nonclass (S : Schema) (a : Ann) (t : Tree) (h : classOf S a = none) : datify S a t = t := by
+theorem datify_nonclass (S : Schema) (a : Ann) (t : Tree) (h : candidates S a = []) : datify S a t = t := by
   cases t with
-  | dict ks vs => simp [datify, h]
-  | list xs => cases xs <;> simp [datify, h]
-  | str s => cases s <;> simp [datify, h]
+  | dict ks vs => simp [datify, h, pick]
+  | list xs => cases xs <;> simp [datify, h, pick]
+  | str s => cases s <;> simp [datify, h, pick]
   | _ => simp [datify]
+
+/-- attempts that did not produce an instance are skipped -/
+theorem pick_skip (orig : Tree) (l1 l2 : List (Nat × Tree)) (h : ∀ x ∈ l1, ∀ c ks vs, x.2 ≠ .obj c ks vs) :
+    pick orig (l1 ++ l2) = pick orig l2 := by
+  induction l1 with
+  | nil => rfl
+  | cons x xs ih =>
+    obtain ⟨c, t⟩ := x
+    have hx := h (c, t) (List.mem_cons_self ..)
+    have ih' := ih (fun y hy => h y (List.mem_cons_of_mem _ hy))
+    cases t with
+    | obj c' ks vs => exact absurd rfl (hx c' ks vs)
+    | _ => simpa [pick] using ih'
+
+/-- a class that lacks one of the keys rejects the dict (`fieldtypes[f]` raises `KeyError`) -/
+theorem construct_reject (c : Nat) (k : Class) (ks : List Key) (vs : List Tree) (orig : Tree)
+    (h : ∃ name ∈ ks, k.field? name = none) : construct c k ks vs orig = orig := by
+  obtain ⟨name, hm, hn⟩ := h
+  have : ks.all (fun n => (k.field? n).isSome) = false := by
+    rw [List.all_eq_false]; exact ⟨name, hm, by simp [hn]⟩
+  simp [construct, this]
 
 theorem datify_atom (S : Schema) (a : Ann) (t : Tree) (h : atom t = true) : datify S a t = t := by
   cases t with
@@ -131,7 +153,7 @@ theorem datify_dictify (S : Schema) : ∀ (a : Ann) (v : Tree), wt S a v → dat
   | _, .null, _ | _, .bool _, _ | _, .int _, _ | _, .float _, _ => by simp [dictify, datify]
   | a, .str s, h => by
     cases s with
-    | nil => simp only [wt] at h; simp [dictify, datify, h]
+    | nil => simp only [wt] at h; simp [dictify, datify, h, pick]
     | cons => simp [dictify, datify]
   | a, .list xs, h => by
     simp only [wt] at h
@@ -141,22 +163,26 @@ theorem datify_dictify (S : Schema) : ∀ (a : Ann) (v : Tree), wt S a v → dat
     rw [dictify_of_plain _ (by simpa [plain] using h.2), datify_nonclass S a _ h.1]
   | a, .obj c ks vs, h => by
     simp only [wt] at h
-    cases hc : classOf S a with
-    | none => simp [hc] at h
-    | some p =>
-      obtain ⟨c', k⟩ := p
-      simp only [hc] at h
-      obtain ⟨rfl, rfl, hn, hw⟩ := h
-      have hl : k.fields.length = vs.length := by
-        have := wtL_length S _ _ hw; simpa using this
-      have hrec := datifyL_dictifyL S k k.fields vs (fun f hf => by
-        simp only [Class.annOf, Class.field?, find_own k.fields f hf hn]) hw
-      simp only [dictify, datify, hc, hrec, construct]
-      have hall : (k.fields.map (·.name)).all (fun name => (k.field? name).isSome) = true := by
-        simp only [List.all_eq_true, List.mem_map]
-        rintro name ⟨f, hf, rfl⟩
-        simp [Class.field?, find_own k.fields f hf hn]
-      simp only [hall, ↓reduceIte, fillFields_own k.fields vs hn hl]
+    obtain ⟨pre, k, post, hc, hpre, rfl, hn, hw⟩ := h
+    have hl : k.fields.length = vs.length := by
+      have := wtL_length S _ _ hw; simpa using this
+    have hrec := datifyL_dictifyL S k k.fields vs (fun f hf => by
+      simp only [Class.annOf, Class.field?, find_own k.fields f hf hn]) hw
+    have hall : (k.fields.map (·.name)).all (fun name => (k.field? name).isSome) = true := by
+      simp only [List.all_eq_true, List.mem_map]
+      rintro name ⟨f, hf, rfl⟩
+      simp [Class.field?, find_own k.fields f hf hn]
+    have hown : construct c k (k.fields.map (·.name)) vs (.dict (k.fields.map (·.name)) (dictifyL vs))
+        = .obj c (k.fields.map (·.name)) vs := by
+      simp only [construct, hall, ↓reduceIte, fillFields_own k.fields vs hn hl]
+    simp only [dictify, datify, hc, List.map_append, List.map_cons, hrec, hown]
+    rw [pick_skip]
+    · simp [pick]
+    · intro x hx c' ks' vs' he
+      obtain ⟨p, hp, rfl⟩ := List.mem_map.mp hx
+      simp only at he
+      rw [construct_reject _ _ _ _ _ (hpre p hp)] at he
+      cases he
 theorem datifyL_dictifyL (S : Schema) (k : Class) : ∀ (fs : List Field) (vs : List Tree),
     (∀ f ∈ fs, k.annOf f.name = f.ann) → wtL S (fs.map (·.ann)) vs →
     datifyL S k (fs.map (·.name)) (dictifyL vs) = vs
@@ -168,5 +194,13 @@ theorem datifyL_dictifyL (S : Schema) (k : Class) : ∀ (fs : List Field) (vs : 
     simp only [List.map_cons, dictifyL, datifyL, ha f (List.mem_cons_self ..), datify_dictify S f.ann v h.1,
       datifyL_dictifyL S k fs vs (fun g hg => ha g (List.mem_cons_of_mem _ hg)) h.2]
 end
+
+theorem wt_obj_intro {S : Schema} {a : Ann} {c : Nat} {ks : List Key} {vs : List Tree}
+    (pre : List (Nat × Class)) (k : Class) (post : List (Nat × Class))
+    (hc : candidates S a = pre ++ (c, k) :: post)
+    (hpre : ∀ p ∈ pre, ∃ name ∈ k.fields.map (·.name), p.2.field? name = none)
+    (hks : ks = k.fields.map (·.name)) (hn : (k.fields.map (·.name)).Nodup)
+    (hw : wtL S (k.fields.map (·.ann)) vs) : wt S a (.obj c ks vs) := by
+  simp only [wt]; exact ⟨pre, k, post, hc, hpre, hks, hn, hw⟩
 
 end Hio.Dom
